@@ -18,9 +18,9 @@ V7 scratch agreement      the scratch pointer handed to sort/reverse is element 
                           `request` as the capacity.
 NOT decided: constructor/destructor exactly-once counts, byte preservation beyond realloc's contract.
 """
-from .. import nw
+from .. import nw, typestate
 from ..allocrules import alloc_calls, check_alloc, aliases, nonnull_at
-from ..facts import Prover, _k
+from ..facts import Prover, _k, strip_bitcasts
 from ..ir import const_int, mem_access, resolve_addr
 from .c17 import abort_only
 from .util import header_functions, floc
@@ -131,6 +131,113 @@ def run(m, rep, tier):
     # ---- V7 ------------------------------------------------------------------------
     v7 = rep.rule('V7', 'scratch slot is element index cap; setter allocates (request+1)*size and records request', floor=3)
     check_scratch(m, v7)
+
+    # ---- V9: no storage => no capacity ---------------------------------------------------
+    v9 = rep.rule('V9', 'whenever an entry point gives up the storage (base := NULL) it also reports capacity 0 on that path', floor=1)
+    n9 = 0
+    for name in sorted(header_functions(m, ('vector.h',))):
+        f = m.ifn(name)
+        if f is None:
+            continue
+        nulls = [s2 for s2 in f.all_insts() if s2.op == 'store' and vec_field(resolve_addr(f, s2.o[1])) == 'elem.base'
+                 and resolve_addr(f, s2.o[1]).root == '$0' and (s2.o[0] == 'null' or const_int(s2.o[0]) == 0)]
+        if not nulls:
+            continue
+        n9 += 1
+
+        def transfer(ins, st, ps, f=f):
+            if ins.op == 'call' and ins.x.get('noreturn'):
+                return None
+            if ins.op == 'store' and resolve_addr(f, ins.o[1]).root == '$0':
+                fl = vec_field(resolve_addr(f, ins.o[1]))
+                if fl == 'elem.base':
+                    return ('null' if (ins.o[0] == 'null' or const_int(ins.o[0]) == 0) else 'set', st[1])
+                if fl == 'cap':
+                    return (st[0], 'zero' if const_int(ins.o[0]) == 0 else 'other')
+            return st
+        try:
+            # last value written to each of the two fields on the path, in whatever order they are written
+            res = typestate.run(f, ('-', '-'), transfer, limit=60000)
+            badr = [r for r, ps in res.exits if ps.auto[0] == 'null' and ps.auto[1] != 'zero']
+            if badr:
+                v9.violation(name, 'a path to the return at %s sets the storage pointer to NULL but leaves the capacity as it was: the vector reports '
+                             'capacity it has no storage for, and a later resize within that capacity allocates nothing' % badr[0].loc(), floc(m, f), {})
+            else:
+                v9.ok(name, 'base := NULL is followed by cap := 0 on all %d exit state(s)' % len(res.exits), floc(m, f))
+        except typestate.Limit as e:
+            v9.undecided(name, str(e), floc(m, f))
+    if n9 == 0:
+        v9.undecided('vector', 'no entry point that gives up the storage found')
+
+    # ---- V10: resize moves the count toward the request only ---------------------------------
+    v10 = rep.rule('V10', 'resize constructs (count + 1) only while count < request and destroys (count - 1) only while count > request', floor=1)
+    f = m.ifn('cstl_vector_resize')
+    if f is None:
+        v10.undecided('cstl_vector_resize', 'not found')
+    else:
+        from ..ir import unit_step
+        bad10 = []
+
+        # judged where the new count is computed (count +/- 1): there the path still knows the value the count was just
+        # read as; at the store the stepped value has already replaced it
+        steps = {}
+        for s2 in f.all_insts():
+            if s2.op == 'store' and resolve_addr(f, s2.o[1]).root == '$0' and vec_field(resolve_addr(f, s2.o[1])) == 'count':
+                base, step = unit_step(f, s2.o[0])
+                if step and isinstance(s2.o[0], str):
+                    steps[s2.o[0]] = (base, step)
+
+        def transfer10(ins, st, ps):
+            if ins.op == 'call' and ins.x.get('noreturn'):
+                return None
+            if ins.ref in steps:
+                base, step = steps[ins.ref]
+                cur = ps.lookup(_k(base)) if isinstance(base, str) else base
+                if step == 1 and ps.knows(('ult', cur, '$1')) is not True:
+                    bad10.append('the count is raised (an element constructed) at %s on a path that has not established count < request: asking for the '
+                                 'current size constructs an extra element' % ins.loc())
+                if step == -1 and ps.knows(('ult', '$1', cur)) is not True:
+                    bad10.append('the count is lowered (an element destroyed) at %s on a path that has not established count > request' % ins.loc())
+            return st
+        tm = typestate.with_memory(f, transfer10, lambda a: a.root == '$0' and vec_field(a) == 'count')
+        try:
+            res = typestate.run(f, (0, frozenset()), tm, limit=100000)
+            if bad10:
+                v10.violation('cstl_vector_resize', '; '.join(sorted(set(bad10))[:2]), floc(m, f), {})
+            elif not res.exits:
+                v10.undecided('cstl_vector_resize', 'no return reached', floc(m, f))
+            else:
+                v10.ok('cstl_vector_resize', 'every count step is in the direction of the request (%d exit state(s))' % len(res.exits), floc(m, f))
+        except typestate.Limit as e:
+            v10.undecided('cstl_vector_resize', str(e), floc(m, f))
+
+    # ---- V12: the raw-array routines are handed the element count ---------------------------------
+    v12 = rep.rule('V12', 'sort / search / find / reverse hand the raw-array routine the vector\'s storage, its element COUNT (not the capacity) and its element size', floor=4)
+    for f in m.all_plain_functions():
+        if not (f.file or '').endswith(('vector.c', 'vector.h')):
+            continue
+        for c in f.all_insts():
+            if c.op != 'call' or not (c.callee or '').startswith('cstl_raw_array_') or len(c.o) < 3:
+                continue
+            site = '%s->%s' % (f.name, c.callee)
+            kinds = []
+            for o in c.o[:3]:
+                oi = f.get(strip_bitcasts(f, o)) if isinstance(o, str) else None
+                kinds.append(vec_field(resolve_addr(f, oi.o[0])) if (oi is not None and oi.op == 'load') else None)
+            if kinds == ['elem.base', 'count', 'elem.size']:
+                v12.ok(site, 'base, count, element size', c.loc())
+            elif kinds[1] == 'cap':
+                v12.violation(site, 'the routine is handed the capacity where the element count belongs: slots beyond the size (stale or never '
+                              'constructed elements, the scratch slot) take part, so a search can report an index >= size', c.loc(), {})
+            elif None in kinds:
+                v12.ok(site, 'NOT DECIDED: arguments %s' % kinds, c.loc())
+            else:
+                v12.violation(site, 'the routine is handed (%s) instead of (base, count, element size)' % ', '.join(str(k) for k in kinds), c.loc(), {})
+
+    # ---- V11: no stale storage pointer across a reallocation ------------------------------------
+    v11 = rep.rule('V11', 'no element pointer read before a reallocation of the storage is used after it', floor=2)
+    from .util import check_stale_base
+    check_stale_base(m, v11, sorted(header_functions(m, ('vector.h',))), lambda a: vec_field(a) == 'elem.base', 'the element storage pointer')
 
     # ---- V8: swap completeness ------------------------------------------------------------
     from .util import check_swap_complete
